@@ -82,6 +82,13 @@ func (p *TriggerPool) maxIterationsReached() {
 func (p *TriggerPool) sendJobsForExecution(numJobs int) {
 	p.jobsAvailableCond.L.Lock()
 
+	if numJobs > 0 && !p.running() {
+		// the pool has been stopped: its pending work has been (or is about to be) drained
+		// and reported, so a tick that lost the race against the stop must not install more
+		p.jobsAvailableCond.L.Unlock()
+		return
+	}
+
 	jobsDiscarded := p.jobsToExecute.set(numJobs)
 	p.jobsAvailableCond.Broadcast()
 
